@@ -137,6 +137,16 @@ def empty_unselected_domain(case, res):
 
 def run_query_cases(report, cases, opts, judge):
     """Run all cases; `judge(case, res, drv)` classifies each one."""
+    # histories: a share of the an(...) cases is evaluated AFTER an evaluation of the same query object that was abandoned
+    # after 1-3 results (an abandoned evaluation must not change what later evaluations return)
+    rate = opts.get('abandon', 0.15)
+    if rate and len(cases) > 1:
+        import random
+        r = random.Random(getattr(report, 'seed', 0) * 7919 + len(cases))
+        for c in cases:
+            if c.get('quant') == 'an' and 'pre_take' not in c and r.random() < rate:
+                c['pre_take'] = r.randint(1, 3)
+                report.count('after_an_abandoned_evaluation')
     jobs = [(c, opts) for c in cases]
     results = pmap(eval_case, jobs)
     good = [(c, r) for c, r in zip(cases, results) if 'spec_exc' not in r]
